@@ -65,6 +65,7 @@ func prop(c Case) error {
 			return fmt.Errorf("wkt.Marshal of a collection with a NoLayout member succeeded: %q", txt)
 		}
 	}
+	held := model.Leaves(t) // the caller's aliases of the coordinates, taken before any call
 	// (a) the encoder's text is accepted by the library's own parser
 	text, err := wkt.Marshal(t)
 	if err != nil {
@@ -109,19 +110,36 @@ func prop(c Case) error {
 	if err := same(fmt.Sprintf("Unmarshal(spelling %q)", clip(c.Text)), g, spm); err != nil {
 		return err
 	}
+	// the same geometry object as a member in several places of a collection tree
+	// (a value, not a cycle): GEOMETRYCOLLECTION(g, GEOMETRYCOLLECTION(g), g)
+	{
+		inner, outer := geom.NewGeometryCollection(), geom.NewGeometryCollection()
+		if inner.Push(t) == nil && outer.Push(t, inner, t) == nil && !(g.IsCollection() && g.Empty()) {
+			gm := &model.G{Kind: model.GeometryCollection, Members: []model.G{*g, {Kind: model.GeometryCollection, Members: []model.G{*g}}, *g}}
+			text3, err := wkt.Marshal(outer)
+			if err != nil {
+				return fmt.Errorf("wkt.Marshal of a collection holding the same object three times: %v", err)
+			}
+			back3, err := wkt.Unmarshal(text3)
+			if err != nil {
+				return fmt.Errorf("wkt.Unmarshal of a collection holding the same object three times: %v\ntext: %s", err, clip(text3))
+			}
+			bm3, err := model.FromGeom(back3)
+			if err != nil {
+				return fmt.Errorf("parsed geometry not well formed: %v", err)
+			}
+			if err := same("collection holding the same object three times [text "+clip(text3)+"]", gm, bm3); err != nil {
+				return err
+			}
+		}
+	}
 	// (d) the text is that of the coordinates as they are now: x and y of every
 	// coordinate are exchanged in place (rings stay closed) and the same object is
 	// marshalled again
-	if !swapXY(t) {
+	if !model.SwapXY(held) {
 		return nil
 	}
-	g2, err := model.FromGeom(t)
-	if err != nil {
-		return fmt.Errorf("harness: geometry ill formed after exchanging x and y: %v", err)
-	}
-	if g.IsCollection() {
-		g2.Layout = g.Layout // the fixed layout of a collection is not observable through its members
-	}
+	g2 := g.SwappedXY() // from the model: the object is not read back
 	text2, err := wkt.Marshal(t)
 	if err != nil {
 		return fmt.Errorf("wkt.Marshal after x and y were exchanged in place: %v", err)
@@ -133,28 +151,6 @@ func prop(c Case) error {
 	return same("Marshal of the same object after x and y were exchanged in place [text "+clip(text2)+"]", g2, rm2)
 }
 
-// swapXY exchanges x and y of every coordinate of every leaf, in place; false if
-// there was nothing to exchange.
-func swapXY(t geom.T) bool {
-	if gc, ok := t.(*geom.GeometryCollection); ok {
-		any := false
-		for _, m := range gc.Geoms() {
-			if swapXY(m) {
-				any = true
-			}
-		}
-		return any
-	}
-	stride := t.Stride()
-	if stride < 2 {
-		return false
-	}
-	fc := t.FlatCoords()
-	for i := 0; i+1 < len(fc); i += stride {
-		fc[i], fc[i+1] = fc[i+1], fc[i]
-	}
-	return len(fc) > 0
-}
 
 func clip(s string) string {
 	if len(s) > 400 {
